@@ -25,10 +25,10 @@ partial def tyOf : Sexp → Option Ty
       let t ← tyOf e; let l ← lo.int?; let h ← hi.int?
       if intOk l && intOk h && l ≤ h then some (.arr t l h) else none
   | .list (.atom "var" :: ts) => (ts.mapM tyOf).map mkVar
-  | .list [.atom "tup", .list ts] => (ts.mapM tyOf).map fun ts => .tup ts none
+  | .list [.atom "tup", .list ts] => (ts.mapM tyOf).map fun ts => mkTup ts none
   | .list [.atom "tup", .list ts, lo, hi] => do
       let ts ← ts.mapM tyOf; let l ← lo.int?; let h ← hi.int?
-      if intOk l && intOk h && l ≤ h then some (.tup ts (some (l, h))) else none
+      if intOk l && intOk h && l ≤ h then some (mkTup ts (some (l, h))) else none
   | .list [.atom "opt", t] => (tyOf t).map .opt
   | .list [.atom "typ", t] => (tyOf t).map .typ
   | _ => none
